@@ -76,6 +76,13 @@ theorem fat32_reserved_bits_counterexample :
     ∃ f', set .fat32 #[0, 0, 0, 0x10] 0 (.data 0xF0000001) = .ok f' ∧ getRaw .fat32 f' 0 = .ok 0xF0000001 :=
   ⟨_, rfl, rfl⟩
 
+/-- **the key law** tying bytes to the decoded view: on the view, `set` is a point update
+    (`view (set f c v) = Function.update (view f) c v`) for every in-range `c` and representable `v` -/
+theorem fat_view_set (ft : FatType) (f f' : Array Nat) (c : Nat) (v : FatValue) (hf : WfBytes f)
+    (hv : Representable ft v) (hs : ft = .fat32 → ¬ special32 c) (h : set ft f c v = .ok f') :
+    view ft f' = updV (view ft f) c v :=
+  view_set hf hv hs h
+
 /-- the byte length never changes — after a successful `set`, and after a failed one (`setAfter`) -/
 theorem set_len (ft : FatType) (f f' : Array Nat) (c : Nat) (v : FatValue) (h : set ft f c v = .ok f') :
     f'.size = f.size :=
